@@ -568,6 +568,8 @@ def prove(hyps, goal, timeout_ms=10000, rounds=5, want_model=False, fallbacks=Tr
                 subsets.append(('relevance %d' % depth, sub, True))
         for tag, sub, uidx in subsets:
             depth = tag
+            if time.time() - t0 > 4 * timeout_ms / 1000.0:
+                break       # overall budget: an obligation that resists this long goes to the native engines and is reported as it stands
             try:
                 inst = Inst(nnf_skolem(list(sub) + [z3.Not(goal)]), rounds=rounds, use_idx=uidx)
                 ts = time.time()
